@@ -22,7 +22,9 @@ LEVEL_TEXT = (
     "generated program equals the hand model (gen_*_eq_model: constructor, size, weights, points, _chunked_iterator for every "
     "size, point-by-point route, vectorised route), and the route / chunk-independence / enumeration theorems are restated "
     "over the generated programs (gen_integrate_nonvec_eq, gen_integrate_vec_eq, gen_integrate_chunk_independent, "
-    "gen_size_points_weights). Way 2: model and generated programs compared with the implementation on random "
+    "gen_size_points_weights). The two refusing methods get_localgrid and moments are carried with their signatures (parameter "
+    "names, annotations, every default value) and their raise: gen_moments_not_implemented, gen_moments_defaults, "
+    "gen_get_localgrid_not_implemented. Way 2: model and generated programs compared with the implementation on random "
     "configurations (structure exactly, values with tolerance)."
 )
 TECHNIQUE = "Lean 4 proof (generic list/semiring theorems; AST translation of ngrid.py with gen = model theorems) + differential correspondence + nested-sum oracle"
@@ -58,6 +60,10 @@ THEOREMS = [
     "GridVerif.C18.gen_integrate_nonvec_eq",
     "GridVerif.C18.gen_integrate_chunk_independent",
     "GridVerif.C18.gen_integrate_vec_eq",
+    # round 3: the refusing methods, carried with their signatures
+    "GridVerif.C18.gen_moments_not_implemented",
+    "GridVerif.C18.gen_moments_defaults",
+    "GridVerif.C18.gen_get_localgrid_not_implemented",
 ]
 RULE = (
     "correspondence: random MultiDomainGrid configurations (1-4 domains; list mode, repeated-grid mode, and the same grid object "
@@ -69,7 +75,16 @@ RULE = (
     "vectorised integrand. Argument kinds covered in every run (variant:* in the distribution): integrand values handed back as "
     "float64 / float32 / int64 / int32 / bool arrays, Python lists, Python float / int / bool and 0-d arrays; chunk sizes as int / "
     "np.int64 / np.int32; positional and keyword call forms; strided and read-only grid arrays; every call repeated on the same "
-    "object after other calls (identical answer required) and the object rebuilt. non-trivial = at least 2 domains and a chunk "
+    "object after other calls (identical answer required) and the object rebuilt. Round 3, present in every run: every domain a single "
+    "point, a one-point domain first / in the middle / last, one grid object in non-adjacent positions (A, B, A[, B]), num_domains = 1 and "
+    "a one-point grid repeated five times; integrands exactly zero everywhere / on the leading block of the product order / on half of the "
+    "first domain, weights exactly zero (a leading block, a whole first grid, scattered), integrand values scaled by 1e-300 ... 1e200 and "
+    "weights by 1e-150 ... 1e150 (compared relative to that scale), grids translated by 2^10 / 2^20 with dyadic coordinates; totals next to "
+    "the default chunk size (6001 = 17 x 353, 78^2; thorough also 6000, 5999, 6156) called with the default and with 5999 / 6000 / 6001; "
+    "vectorised integrands handing back non-contiguous and write-protected arrays, an (N, 1) column (rejected on both sides); histories on "
+    "one freshly built object (shuffled calls of both routes with changing chunk sizes, the first call possibly the point-by-point route "
+    "with a non-default size, size / points / weights and the refusing methods in between; every answer against the model and bit-identical "
+    "to the earlier answer of the same call); get_localgrid / moments called in every argument form (refusal on both sides). non-trivial = at least 2 domains and a chunk "
     "size >= 1 not dividing the total (point-by-point), or at least 2 domains (vectorised / structure)"
 )
 TRUSTED_BASE = [
@@ -96,12 +111,17 @@ class Integrand:
     # one-component point (dims[k] = 11: points of shape (N, 1)), d[k][:m] . x_k for an m-component point (dims[k] = m = 2, 3).
     # Works pointwise and with an array of points as the last argument.
     # ret: the type in which the value is handed back: float64 (NumPy scalar / array), float32, int (Python int / int64 array
-    # holding rint(3 v)), int32, bool (v > 0.9; Python bool / bool array), list (Python float / list of floats), 0d (0-d array / array).
-    def __init__(self, kind, dims, a, d, c0, c1, c2, ret="float64"):
+    # holding rint(3 v)), int32, bool (v > 0.9; Python bool / bool array), list (Python float / list of floats), 0d (0-d array / array),
+    # strided / readonly (NumPy scalar / a non-contiguous resp. write-protected array), a1 (one-element array of shape (1,) / array).
+    # scale: factor on the value (1e-300 ... 1e200); zero: None, "all" (the integrand is exactly 0 everywhere) or a number z (exactly 0
+    # wherever the coordinate t_0 of the FIRST domain is below z: whole blocks of the product order); shift: every coordinate of every
+    # point is read as x - shift (grids translated by an exactly representable amount).
+    def __init__(self, kind, dims, a, d, c0, c1, c2, ret="float64", scale=1.0, zero=None, shift=0.0):
         self.kind, self.dims, self.a, self.d = kind, dims, a, [np.array(v, dtype=float) for v in d]
         self.c0, self.c1, self.c2, self.ret = c0, c1, c2, ret
+        self.scale, self.zero, self.shift = scale, zero, shift
     def t(self, k, x):
-        x = np.asarray(x, dtype=float)
+        x = np.asarray(x, dtype=float) - self.shift
         if self.dims[k] == 1:
             return x * self.a[k]
         if self.dims[k] == 11:
@@ -109,6 +129,14 @@ class Integrand:
         return x @ self.d[k][: self.dims[k]]
     def raw(self, *args):
         ts = [self.t(k, x) for k, x in enumerate(args)]
+        r = self.unscaled(ts)
+        if self.zero == "all":
+            r = np.zeros_like(r)
+        elif self.zero is not None:
+            r = np.where(ts[0] < self.zero, 0.0, r)
+        r = r * self.scale
+        return np.float64(r) if np.ndim(r) == 0 else r
+    def unscaled(self, ts):
         if self.kind == "sep":
             r = 1.0
             for k, t in enumerate(ts):
@@ -140,10 +168,20 @@ class Integrand:
             return float(a) if scalar else a.tolist()
         if ret == "0d":
             return np.array(float(a)) if scalar else a
+        if ret == "strided":
+            return np.float64(a) if scalar else np.repeat(a, 2)[::2]
+        if ret == "readonly":
+            if scalar:
+                return np.float64(a)
+            a = a.copy(); a.setflags(write=False)
+            return a
+        if ret == "a1":
+            return a.reshape(1) if scalar else a
         raise ValueError(ret)
     def factor(self, k, x):
+        # the k-th factor of a separable integrand (the scale is put on the first factor; not meaningful with `zero`)
         t = self.t(k, x)
-        return self.c0[k] + self.c1[k] * t + self.c2[k] * t * t
+        return (self.c0[k] + self.c1[k] * t + self.c2[k] * t * t) * (self.scale if k == 0 else 1.0)
 '''
 _ns = {}
 exec(INTEGRAND_SRC, _ns)
@@ -163,9 +201,12 @@ def _arr(values, how):
     return a
 def build(cfg, Grid, MultiDomainGrid):
     # -> (multi-domain grid, listed grids, domains).  mode 'list': one grid per domain; 'repeat': one grid and num_domains;
-    # 'list-same': the *same grid object* listed nd times.
+    # 'list-same': the *same grid object* listed nd times; 'list-aba': two grid objects listed alternately (A, B, A, ...).
     lay = cfg.get("layout", "c")
     grids = [Grid(_arr(p, lay), _arr(w, lay)) for p, w in zip(cfg["pts"], cfg["wts"])]
+    if cfg["mode"] == "list-aba":
+        listed = [grids[i % 2] for i in range(cfg["nd"])]
+        return MultiDomainGrid(listed), listed, listed
     if cfg["mode"] == "repeat":
         return MultiDomainGrid(grids, num_domains=cfg["nd"]), grids, grids * cfg["nd"]
     if cfg["mode"] == "list-same":
@@ -188,34 +229,93 @@ def run(mg, f, cfg, kind, c=None):
 exec(BUILD_SRC, _ns)
 build, run = _ns["build"], _ns["run"]
 CFG_KEYS = ("mode", "nd", "dims", "pts", "wts", "par", "layout", "ctype", "call")
-EXACT_RET = ("float64", "list", "0d")           # kinds that hand back the float64 value unchanged
+EXACT_RET = ("float64", "list", "0d", "strided", "readonly")           # kinds that hand back the float64 value unchanged
+SINGLE = ("repeat", "list-same")               # modes with one grid object in every domain
 
 
 def _r(x):
     return round(float(x), 3)
 
 
-def _config(ctx: Ctx, cap: int, nd=None, mode=None):
-    """-> dict(mode, nd, dims, pts, wts, integrand parameters, argument kinds)"""
+def _domain_index(mode, nd):
+    """which of the generated grids sits in domain k"""
+    return [0] * nd if mode in SINGLE else [k % 2 for k in range(nd)] if mode == "list-aba" else list(range(nd))
+
+
+def _total(cfg):
+    return math.prod(len(cfg["wts"][g]) for g in _domain_index(cfg["mode"], cfg["nd"]))
+
+
+def _config(ctx: Ctx, cap: int, nd=None, mode=None, sizes=None, plain=False, **force):
+    """-> dict(mode, nd, dims, pts, wts, integrand parameters, argument kinds).
+    `sizes`: sizes of the generated grids; `plain`: none of the random extras (zero weights, scales, zero blocks, shift);
+    `force`: extras switched on (zero_w='lead'|'some'|'all-first', wexp=[exponent per grid], fscale=x, zero='all'|'lead'|'mid', shift=k)."""
     rng = ctx.rng
     nd = nd or rng.choice([1, 2, 2, 3, 3, 4])
     if mode is None:
         u = rng.random()
-        mode = "repeat" if u < 0.25 else "list-same" if u < 0.4 and nd >= 2 else "list"
-    ngr = 1 if mode in ("repeat", "list-same") else nd
-    while True:
+        mode = "repeat" if u < 0.25 else "list-same" if u < 0.37 and nd >= 2 else "list-aba" if u < 0.45 and nd >= 3 else "list"
+    ngr = 1 if mode in SINGLE else 2 if mode == "list-aba" else nd
+    dom = _domain_index(mode, nd)
+    while sizes is None or len(sizes) != ngr:
         sizes = [rng.randint(1, 7) for _ in range(ngr)]
-        tot = sizes[0] ** nd if mode in ("repeat", "list-same") else math.prod(sizes)
-        if tot <= cap:
-            break
+        if math.prod(sizes[g] for g in dom) > cap:
+            sizes = None
+    tot = math.prod(sizes[g] for g in dom)
     # a point is a scalar (points of shape (N,)), a 1-vector ((N, 1)), a 2-vector or a 3-vector: mixed freely
     dims = [rng.choice([1, 1, 11, 2, 3, 3]) for _ in range(ngr)]
+    ex = {} if plain else dict(
+        zero_w=rng.choice([None] * 7 + ["lead", "some", "some"]),
+        wexp=rng.random() < 0.2, fscale=rng.random() < 0.2,
+        zero=rng.choice([None] * 11 + ["all", "lead", "mid"]),
+        shift=rng.choice([None] * 9 + [10, 20]))
+    ex.update(force)
+    shift = float(2 ** ex["shift"]) if ex.get("shift") else 0.0
     pts, wts = [], []
     for n, dm in zip(sizes, dims):
-        p = [[_r(rng.uniform(-1.5, 1.5)) for _ in range(1 if dm == 11 else dm)] for _ in range(n)]
+        if shift:        # dyadic coordinates: the translated point is exactly representable, and so is the way back
+            p = [[rng.randint(-1536, 1536) / 1024 + shift for _ in range(1 if dm == 11 else dm)] for _ in range(n)]
+        else:
+            p = [[_r(rng.uniform(-1.5, 1.5)) for _ in range(1 if dm == 11 else dm)] for _ in range(n)]
         pts.append([q[0] for q in p] if dm == 1 else p)
         wts.append([_r(rng.uniform(-0.5, 1.5)) or 0.25 for _ in range(n)])
-    ddims = dims * nd if mode in ("repeat", "list-same") else dims
+    # weights that are exactly zero: the first weight of the first grid (a whole leading block of the product order has
+    # weight 0), or some weights anywhere
+    if ex.get("zero_w") == "lead":
+        wts[0][0] = 0.0
+    elif ex.get("zero_w") == "some":
+        for w in wts:
+            for i in range(len(w)):
+                if rng.random() < 0.3:
+                    w[i] = 0.0
+    elif ex.get("zero_w") == "all-first":
+        wts[0] = [0.0] * len(wts[0])
+    # weights of extreme magnitude: one grid scaled by a power of ten, or two grids by opposite powers; every product
+    # of one weight per domain stays inside the double range
+    mult = [dom.count(g) for g in range(ngr)]
+    wexp = ex.get("wexp")
+    if wexp is True:
+        g = rng.randrange(ngr)
+        lim = 240 // mult[g]
+        e = rng.choice([v for v in (-150, -100, -60, -12, 12, 60, 100, 150) if abs(v) <= lim])
+        wexp = [0] * ngr
+        wexp[g] = e
+        if ngr >= 2 and abs(e) >= 100 and rng.random() < 0.6:
+            h = rng.choice([x for x in range(ngr) if x != g])
+            if mult[h] == mult[g]:
+                wexp[h] = -e
+    if wexp:
+        wts = [[w * 10.0 ** e for w in ws] for ws, e in zip(wts, wexp)]
+    wpos = sum(max(e, 0) * m for e, m in zip(wexp, mult)) if wexp else 0
+    wneg = sum(min(e, 0) * m for e, m in zip(wexp, mult)) if wexp else 0
+    # integrand values of extreme magnitude (the result is compared relative to that scale)
+    fscale = ex.get("fscale")
+    if fscale is True:
+        fscale = rng.choice([1e-300 if nd <= 2 else 1e-280, 1e-50, 1e-12, 1e12, 1e100, 1e200])
+    fscale = float(fscale or 1.0)
+    if wpos + max(math.log10(fscale), 0) > 290 or wneg + min(math.log10(fscale), 0) < -290:
+        fscale = 1.0           # every partial product (in whatever order a route multiplies) stays a normal double
+    ddims = [dims[g] for g in dom]
     par = dict(
         kind=rng.choice(["sep", "nonsep"]), dims=ddims,
         a=[_r(rng.uniform(0.3, 1.2)) for _ in range(nd)],
@@ -223,10 +323,21 @@ def _config(ctx: Ctx, cap: int, nd=None, mode=None):
         c0=[_r(rng.uniform(0.5, 1.5)) for _ in range(nd)],
         c1=[_r(rng.uniform(-1, 1)) for _ in range(nd)],
         c2=[_r(rng.uniform(-0.5, 0.5)) for _ in range(nd)],
-        ret=rng.choice(["float64"] * 6 + ["float32", "int", "int32", "bool", "list", "0d"]),
+        ret=rng.choice(["float64"] * 6 + ["float32", "int", "int32", "bool", "list", "0d", "strided", "readonly"]),
     )
     if nd == 1 and par["ret"] == "list":
         par["ret"] = "0d"      # a list-valued vectorised integrand on ONE domain is a listed finding (probed by the oracle under its own key)
+    if fscale != 1.0:
+        par["scale"] = fscale
+        if par["ret"] not in EXACT_RET:
+            par["ret"] = "float64"
+    if shift:
+        par["shift"] = shift
+    if ex.get("zero"):
+        # exactly zero on the first point of the first domain ("lead": the first chunks hold nothing but zeros), below the
+        # median coordinate of the first domain ("mid"), or everywhere
+        t0 = sorted(float(Integrand(**par).t(0, x)) for x in pts[0])
+        par["zero"] = "all" if ex["zero"] == "all" else (float(Integrand(**par).t(0, pts[0][0])) if ex["zero"] == "lead" else t0[len(t0) // 2]) + 1e-9
     return dict(mode=mode, nd=nd, dims=dims, pts=pts, wts=wts, par=par, total=tot,
                 layout=rng.choice(["c"] * 4 + ["strided", "readonly"]),
                 ctype=rng.choice(["int"] * 3 + ["np.int64", "np.int32"]),
@@ -240,8 +351,8 @@ def _build(cfg):
 
 
 def _spec(cfg):
-    if cfg["mode"] == "list-same":              # the same object nd times is, for the model, nd equal domains
-        return f"list {cfg['nd']} {cfg['nd']} " + " ".join(fvec(cfg["wts"][0]) for _ in range(cfg["nd"]))
+    if cfg["mode"] in ("list-same", "list-aba"):              # the same object several times is, for the model, equal domains
+        return f"list {cfg['nd']} {cfg['nd']} " + " ".join(fvec(cfg["wts"][g]) for g in _domain_index(cfg["mode"], cfg["nd"]))
     return f"{cfg['mode']} {cfg['nd']} {len(cfg['wts'])} " + " ".join(fvec(w) for w in cfg["wts"])
 
 
@@ -269,6 +380,53 @@ def _variants(ctx, cfg):
     if cfg["par"]["ret"] != "float64":
         ctx.distribution[f"variant:ret={cfg['par']['ret']}"] = ctx.distribution.get(f"variant:ret={cfg['par']['ret']}", 0) + 1
     ctx.distribution[f"variant:points={sorted(set(cfg['dims']))}"] = ctx.distribution.get(f"variant:points={sorted(set(cfg['dims']))}", 0) + 1
+    par, flat = cfg["par"], [w for ws in cfg["wts"] for w in ws]
+    extras = []
+    if any(w == 0.0 for w in flat):
+        extras.append("zero-weights" + (":leading-block" if cfg["wts"][0][0] == 0.0 else ""))
+    if any(w != 0.0 and not 1e-6 < abs(w) < 1e6 for w in flat):
+        extras.append("weights-scaled")
+    if par.get("zero") is not None:
+        extras.append("integrand-zero:" + ("everywhere" if par["zero"] == "all" else "block"))
+    if par.get("scale", 1.0) != 1.0:
+        extras.append(f"integrand-scale={par['scale']:g}")
+    if par.get("shift"):
+        extras.append(f"points-shifted-by={par['shift']:g}")
+    if 1 in [len(w) for w in cfg["wts"]]:
+        extras.append("one-point-domain")
+    for e in extras:
+        ctx.tagc("variant:" + e)
+
+
+def _same_struct(a, b):
+    return (a[0] == b[0] and a[2] == b[2] and len(a[1]) == len(b[1])
+            and all(len(p) == len(q) and all(np.array_equal(np.asarray(x), np.asarray(y)) for x, y in zip(p, q)) for p, q in zip(a[1], b[1])))
+
+
+def _struct_of(mg):
+    return (int(mg.size), list(mg.points), [float(x) for x in mg.weights])
+
+
+def _refusal_calls(cfg, doms, k):
+    """k-th way of calling the two refusing methods -> (driver line tail, callable on a multi-domain grid)"""
+    nfun = cfg["total"]
+    centers = [[0.0, 0.0, 0.0]] if k % 2 == 0 else [[0.5, -1.0, 2.0], [0.0, 0.0, 0.0]]
+    vals = [float(i % 5) - 1.5 for i in range(min(nfun, 12))]
+    orders = [2, 0, 3, 1, -1][k % 5]
+    tm = ["default", "cartesian", "radial", "pure", "pure-radial", "nonsense"][k % 6]
+    ro = ["default", "0", "1"][k % 3]
+    line = f"{orders} {tm} {ro} {_spec(cfg)} {len(centers)} 3 {' '.join(f2b(x) for c in centers for x in c)} {fvec(vals)}"
+
+    def call(mg):
+        kw = {}
+        if tm != "default":
+            kw["type_mom"] = tm
+        if ro != "default":
+            kw["return_orders"] = bool(int(ro))
+        if k % 4 == 0 and tm != "default" and ro != "default":
+            return mg.moments(orders, np.array(centers), np.array(vals), tm, bool(int(ro)))          # all positional
+        return mg.moments(orders, np.array(centers), np.array(vals), **kw)
+    return line, call
 
 
 def corr(ctx: Ctx):
@@ -280,7 +438,35 @@ def corr(ctx: Ctx):
     # repeated-grid mode with 2-3 domains; then the random configurations
     fixed = [(3, "list"), (4, "list"), (3, "list"), (2, "list-same"), (3, "list-same"), (2, "repeat"), (3, "repeat"), (1, "list"), (1, "repeat")]
     cfgs = [_config(ctx, 300, nd, mode) for nd, mode in fixed]
-    cfgs += [_config(ctx, cap if i % 5 else 60) for i in range(ncfg - len(cfgs))]
+    # round 3, always present --------------------------------------------------------------------------------------
+    # class 12: every domain a single point; a one-point domain first / in the middle / last; one grid object in
+    # non-adjacent positions (A, B, A) and (A, B, A, B); num_domains = 1 with one point; one point repeated five times
+    cfgs += [_config(ctx, 300, 1, "list", sizes=[1]), _config(ctx, 300, 3, "list", sizes=[1, 1, 1]), _config(ctx, 300, 4, "repeat", sizes=[1]),
+             _config(ctx, 300, 3, "list", sizes=[1, 4, 3]), _config(ctx, 300, 3, "list", sizes=[4, 1, 3]), _config(ctx, 300, 3, "list", sizes=[4, 3, 1]),
+             _config(ctx, 300, 3, "list-aba"), _config(ctx, 300, 4, "list-aba"), _config(ctx, 300, 1, "repeat", sizes=[1]),
+             _config(ctx, 300, 5, "repeat", sizes=[1]), _config(ctx, 300, 2, "list-same", sizes=[1])]
+    # class 8: an integrand that is exactly zero everywhere / on the leading block / on half of the first domain; a leading
+    # block of zero weights; a first grid of zero weights only; values and weights of extreme magnitude
+    cfgs += [_config(ctx, 300, 2, "list", plain=True, zero="all"), _config(ctx, 300, 3, "list", plain=True, zero="lead"),
+             _config(ctx, 300, 2, "repeat", plain=True, zero="lead"), _config(ctx, 300, 3, "list", plain=True, zero="mid"),
+             _config(ctx, 300, 1, "list", plain=True, zero="lead", sizes=[6]),
+             _config(ctx, 300, 3, "list", plain=True, zero_w="lead"), _config(ctx, 300, 2, "list", plain=True, zero_w="all-first"),
+             _config(ctx, 300, 2, "repeat", plain=True, zero_w="lead"), _config(ctx, 300, 3, "list", plain=True, zero_w="some", zero="mid"),
+             _config(ctx, 300, 2, "list", plain=True, fscale=1e-300), _config(ctx, 300, 3, "list", plain=True, fscale=1e-50),
+             _config(ctx, 300, 2, "list", plain=True, fscale=1e-12), _config(ctx, 300, 3, "list", plain=True, fscale=1e12),
+             _config(ctx, 300, 2, "repeat", plain=True, fscale=1e200), _config(ctx, 300, 3, "list", plain=True, wexp=[150, 0, -150]),
+             _config(ctx, 300, 3, "list", plain=True, wexp=[-150, 12, 150], fscale=1e100), _config(ctx, 300, 3, "repeat", plain=True, wexp=[60]),
+             _config(ctx, 300, 2, "list", plain=True, wexp=[-100, 0], fscale=1e-100),
+             _config(ctx, 300, 2, "list", plain=True, shift=20), _config(ctx, 300, 3, "list-aba", plain=True, shift=10)]
+    nfixed = len(cfgs)
+    # class 7: the only literal threshold of integrate is the default chunk size 6000: totals next to it (the default
+    # then splits into 6000 + 1 / 6000 + 84 / does not split), called with the default and with explicit sizes around it
+    big = [(2, "list", [17, 353]), (2, "repeat", [78])] + ([(2, "list", [75, 80]), (2, "list", [7, 857]), (3, "list", [19, 18, 18])] if ctx.thorough else [])
+    cfgs += [_config(ctx, 10 ** 6, nd, mode, sizes=sz, plain=True) for nd, mode, sz in big]
+    for c in cfgs[nfixed:]:
+        c["_big"] = True
+    nfixed = len(cfgs)
+    cfgs += [_config(ctx, cap if i % 5 else 60) for i in range(max(0, ncfg - len(cfgs)))]
     lines, meta = [], []
     for ci, cfg in enumerate(cfgs):
         mg, grids, doms = _build(cfg)
@@ -290,7 +476,10 @@ def corr(ctx: Ctx):
         spec = _spec(cfg)
         ops = [("struct", None, "struct " + spec), ("vec", None, f"vec {spec} {fvec(tab)}")]
         cs = _chunk_sizes(cfg["total"])
-        if cfg["total"] > 80:
+        if cfg.get("_big"):
+            ops = ops[1:]
+            cs = [5999, 6000, 6001, cfg["total"] - 6000]
+        elif cfg["total"] > 80:
             keep = ctx.rng.sample(cs, 3)
             nd_ = [c for c in cs if cfg["total"] % c and c < cfg["total"]]
             if nd_:
@@ -299,11 +488,13 @@ def corr(ctx: Ctx):
         if ci % 7 == 0:
             cs = [0] + cs
         for c in cs:
-            ops.append(("nonvec", c, f"nonvec {c} {spec} {fvec(tab)}"))
-        if ci % 6 == 0:
+            if c >= 0:
+                ops.append(("nonvec", c, f"nonvec {c} {spec} {fvec(tab)}"))
+        if ci % 6 == 0 or cfg.get("_big"):
             ops.append(("nonvec", None, f"nonvec 6000 {spec} {fvec(tab)}"))          # the default chunk size of the code
         if ci % 9 == 0:
             ops.append(("vecbad", None, f"vecbad {spec} {fvec(tab)}"))
+        cfg["_ops"] = [(k, c) for k, c, _ in ops if k in ("vec", "nonvec")]
         for kind, c, text in ops:
             for who in ("model", "generated"):
                 lines.append(("C18." if who == "model" else "C18.gen-") + text)
@@ -311,6 +502,7 @@ def corr(ctx: Ctx):
     ans = driver_batch(lines)
     built = {}
     memo = {}
+    model_ans = {}
     for (ci, kind, c, who), a in zip(meta, ans):
         cfg = cfgs[ci]
         if ci not in built:
@@ -319,9 +511,11 @@ def corr(ctx: Ctx):
             built[ci] = _build(cfg) + (Integrand(**cfg["par"]),)
             _variants(ctx, cfg)
         mg, grids, doms, f = built[ci]
-        case = _pub(cfg)
+        pub = _pub(cfg)
+        # what is hashed / sampled for the evidence: the whole configuration, for the 6000-point ones its description
+        case = pub if not cfg.get("_big") else dict(mode=cfg["mode"], nd=cfg["nd"], sizes=[len(w) for w in cfg["wts"]], par=cfg["par"], big=True)
         total = cfg["total"]
-        wit = dict(case, op=kind, chunk=c, answered_by=who)
+        wit = dict(pub, op=kind, chunk=c, answered_by=who)
         sfx = "" if who == "model" else ":generated"
         if kind == "struct":
             ctx.count(["struct", who, case], nontrivial=cfg["nd"] >= 2, tag=f"struct:{cfg['mode']}:nd{cfg['nd']}" + sfx)
@@ -334,16 +528,23 @@ def corr(ctx: Ctx):
             combos = [[t.nat() for _ in range(cc)] for _ in range(r)]
             mw = t.fvec()
             if "struct" not in memo:
-                memo["struct"] = (int(mg.size), list(mg.points), [float(x) for x in mg.weights])
+                memo["struct"] = _struct_of(mg)
                 # asked again after other calls, and on a second object built from the same data
-                mg.integrate(f) if total <= 200 else None
-                again = (int(mg.size), list(mg.points), [float(x) for x in mg.weights])
+                try:
+                    mg.integrate(f) if total <= 200 else None
+                except Exception:                 # reported by the `vec` operation of this configuration
+                    pass
+                again = _struct_of(mg)
+                # the lists made from what was handed out are the caller's: reversed / overwritten, then asked again (class 9)
+                again[1].reverse()
+                wl = np.array(again[2])
+                wl *= 0.0
+                again[2][:] = [0.0] * len(again[2])
+                third = _struct_of(mg)
                 mg2 = _build(cfg)[0]
-                second = (int(mg2.size), list(mg2.points), [float(x) for x in mg2.weights])
-                for label, other in (("asked twice", again), ("object rebuilt", second)):
-                    same = (other[0] == memo["struct"][0] and other[2] == memo["struct"][2] and len(other[1]) == len(memo["struct"][1])
-                            and all(all(np.array_equal(np.asarray(x), np.asarray(y)) for x, y in zip(p, q)) for p, q in zip(other[1], memo["struct"][1])))
-                    if not same:
+                second = _struct_of(mg2)
+                for label, other in (("asked twice", third), ("object rebuilt", second)):
+                    if not _same_struct(other, memo["struct"]):
                         ctx.fail("corr", "ngrid.struct:state", f"size / points / weights differ when {label}", witness=wit)
             isize, ipts, iw = memo["struct"]
             if isize != msize or len(ipts) != r or len(iw) != len(mw):
@@ -355,21 +556,24 @@ def corr(ctx: Ctx):
             )
             if not okp:
                 ctx.fail("corr", "ngrid.points" + sfx, f"enumerated points differ from the product order of the {who}", witness=wit)
-            if not all(close(x, y, rtol=1e-13, atol=1e-300) for x, y in zip(iw, mw)):
+            if not all(close(x, y, rtol=1e-13, atol=0.0) for x, y in zip(iw, mw)):
                 ctx.fail("corr", "ngrid.weights" + sfx, f"enumerated weights differ from those of the {who}", witness=wit)
             continue
         if "scale" not in memo:
             wprod = np.ones(())
             for d in doms:
                 wprod = np.multiply.outer(wprod, d.weights)
-            memo["scale"] = float(np.abs(wprod.ravel() * np.array(cfg["_tab"])).sum()) + 1e-300
+            memo["scale"] = float(np.abs(wprod.ravel() * np.array(cfg["_tab"])).sum())
+            cfg["_scale"] = memo["scale"]
         scale = memo["scale"]
         key = (kind, c)
         if key not in memo:
             def call():
                 try:
                     if kind == "vecbad":
-                        return "ok", float(mg.integrate(lambda *xs: np.asarray(f(*xs))[1:]))
+                        if ci % 18 == 0:                          # one value too few / an (N, 1) column instead of (N,)
+                            return "ok", float(mg.integrate(lambda *xs: np.asarray(f(*xs))[1:]))
+                        return "ok", float(mg.integrate(lambda *xs: np.asarray(f(*xs)).reshape(-1, 1)))
                     return "ok", float(run(mg, f, cfg, kind, c))
                 except ValueError:
                     return "value-error", None
@@ -379,8 +583,8 @@ def corr(ctx: Ctx):
             # the same call again on the same object, after a call of the other route (identical answer required)
             if (ci + len(memo)) % 3 == 0 and total <= 300:
                 try:
-                    run(mg, f, cfg, "vec" if kind != "vec" else "nonvec", None if kind == "vec" else None)
-                except ValueError:
+                    run(mg, f, cfg, "vec" if kind != "vec" else "nonvec", None)
+                except Exception:                 # reported by the operation itself
                     pass
                 iv2 = call()
                 ctx.distribution["variant:called-twice"] = ctx.distribution.get("variant:called-twice", 0) + 1
@@ -391,13 +595,13 @@ def corr(ctx: Ctx):
         if kind == "vec":
             ctx.count(["vec", who, case], nontrivial=cfg["nd"] >= 2, tag="vec:" + ("shortcut" if cfg["nd"] == 1 else cfg["mode"]) + sfx)
         elif kind == "vecbad":
-            ctx.count(["vecbad", who, case], nontrivial=False, tag="vec:wrong-shape" + sfx)
+            ctx.count(["vecbad", who, case], nontrivial=False, tag="vec:wrong-shape" + (":drop-one" if ci % 18 == 0 else ":column") + sfx)
         else:
             cc = 6000 if c is None else c
             nontriv = cfg["nd"] >= 2 and cc >= 1 and total % cc != 0
             ctx.count(["nonvec", who, c, case], nontrivial=nontriv,
                       tag="nonvec:" + ("default" if c is None else "c=0" if c == 0 else "c=1" if c == 1 else "c>total" if c > total else "c=total" if c == total
-                                       else "divides" if total % c == 0 else "not-dividing") + sfx)
+                                       else "divides" if total % c == 0 else "not-dividing") + (":total>6000" if total > 6000 else "") + sfx)
         t = Tokens(a)
         tag = t.tok()
         if tag != iv[0]:
@@ -405,14 +609,22 @@ def corr(ctx: Ctx):
             continue
         if tag == "ok":
             mv = t.flt()
+            if who == "model" and kind in ("vec", "nonvec"):
+                model_ans[(ci, kind, c)] = mv
             if not close(iv[1], mv, rtol=1e-11, scale=scale):
                 ctx.fail("corr", f"ngrid.integrate:{kind}" + sfx, f"{kind} c={c}: implementation {iv[1]!r}, {who} {mv!r} (scale {scale:.3g})", witness=wit)
+    _histories(ctx, cfgs, model_ans, nfixed)
+    _refusals(ctx, cfgs, nfixed)
     # _chunked_iterator lengths (sizes as int and as np.int64)
     pairs = [(c, n) for c in (0, 1, 2, 3, 5, 7, 6000) for n in (0, 1, 2, 5, 6, 7, 14, 15)]
     for op in ("C18.chunks", "C18.gen-chunks"):
         ans = driver_batch([f"{op} {c} {n}" for c, n in pairs])
         for (c, n), a in zip(pairs, ans):
             impl = [len(x) for x in ng._chunked_iterator(iter(range(n)), c if (c + n) % 2 else np.int64(c))]
+            # the same lengths when every item is falsy (0, 0.0, False) or an array: a chunk is a list, never "empty" by value
+            for items in ([0] * n, [0.0] * n, [np.zeros(2)] * n):
+                if [len(x) for x in ng._chunked_iterator(iter(items), c)] != impl:
+                    ctx.fail("corr", "ngrid._chunked_iterator:falsy-items", f"_chunked_iterator of {n} items equal to {items[:1]} with size {c} has other chunk lengths than for range({n}): {impl}")
             ctx.count([op, c, n], nontrivial=False, tag="chunks" + (":generated" if "gen" in op else ""))
             if a != "ok " + " ".join(map(str, [len(impl)] + impl)):
                 ctx.fail("corr", "ngrid._chunked_iterator" + (":generated" if "gen" in op else ""),
@@ -434,6 +646,90 @@ def corr(ctx: Ctx):
             if impl != a.strip():
                 ctx.fail("corr", "ngrid.__init__" + (":generated" if "gen" in op else ""),
                          f"MultiDomainGrid({len(gl)} grids, num_domains={nd}): implementation {impl}, {op} answers {a}")
+
+
+def _histories(ctx, cfgs, model_ans, nfixed):
+    """Classes 10 / 11: on ONE freshly built object a shuffled sequence of calls -- the vectorised route, the point-by-point
+    route with several chunk sizes (changed from call to call, each used at least twice), size / points / weights and the
+    refusing methods in between; the first call of the object is whichever comes first in the shuffle (also a non-default
+    chunk size on an object that never integrated before).  Every answer is compared with the model's answer for that
+    call and must be bit-identical to the earlier answer of the same call."""
+    for ci, cfg in enumerate(cfgs):
+        if not (ci < nfixed or ci % 3 == 0) or cfg["total"] > 320 or cfg.get("_big"):
+            continue
+        ops = sorted({o for o in cfg["_ops"] if (o[1] is None or o[1] >= 1) and (ci,) + o in model_ans}, key=lambda o: (o[0], o[1] or 0))
+        if len(ops) < 2:
+            continue
+        seq = ops * 2
+        ctx.rng.shuffle(seq)
+        seq = seq[:10] + [seq[0]]
+        extras = ctx.rng.sample(range(len(seq)), 3)
+        mg, grids, doms = _build(cfg)
+        f = Integrand(**cfg["par"])
+        seen, trace = {}, []
+        first = None
+        ok = True
+        for i, (kind, c) in enumerate(seq):
+            if i in extras:
+                j = extras.index(i)
+                if j == 0:
+                    first = first or _struct_of(mg)
+                    if not _same_struct(_struct_of(mg), first):
+                        ctx.fail("corr", "ngrid.struct:history", f"size / points / weights changed after the calls {trace}", witness=dict(_pub(cfg), history=trace))
+                    trace.append(["struct"])
+                else:
+                    try:
+                        (mg.get_localgrid(np.zeros(3), 1.0) if j == 1 else mg.moments(1, np.zeros((1, 3)), np.ones(cfg["total"])))
+                        ctx.fail("corr", "ngrid.refusal:history", f"{'get_localgrid' if j == 1 else 'moments'} returned instead of raising NotImplementedError after {trace}", witness=dict(_pub(cfg), history=trace))
+                    except NotImplementedError:
+                        pass
+                    except Exception as e:
+                        ctx.fail("corr", "ngrid.refusal:history", f"{'get_localgrid' if j == 1 else 'moments'} raised {type(e).__name__} instead of NotImplementedError", witness=dict(_pub(cfg), history=trace))
+                    trace.append(["get_localgrid" if j == 1 else "moments"])
+            try:
+                got = float(run(mg, f, cfg, kind, c))
+            except Exception as e:
+                ctx.fail("corr", "ngrid.integrate:history", f"call {i} ({kind}, chunk {c}) of the history {trace} raised {type(e).__name__}: {e}", witness=dict(_pub(cfg), history=trace + [[kind, c]], chunk=c))
+                ok = False
+                break
+            trace.append([kind, c])
+            want = model_ans[(ci, kind, c)]
+            if not close(got, want, rtol=1e-11, scale=cfg["_scale"]):
+                ctx.fail("corr", "ngrid.integrate:history", f"call {i} ({kind}, chunk {c}) after {trace[:-1]}: implementation {got!r}, model {want!r}", witness=dict(_pub(cfg), history=trace, chunk=c))
+                ok = False
+            if (kind, c) in seen and seen[(kind, c)] != got and not (got != got and seen[(kind, c)] != seen[(kind, c)]):
+                ctx.fail("corr", "ngrid.integrate:history", f"call {i} ({kind}, chunk {c}) gives {got!r}, the same call earlier in the history {trace} gave {seen[(kind, c)]!r}", witness=dict(_pub(cfg), history=trace, chunk=c))
+                ok = False
+            seen[(kind, c)] = got
+        ctx.traces += 1
+        ctx.count(["history", _pub(cfg), trace], nontrivial=cfg["nd"] >= 2 and ok, tag="history:first=" + (seq[0][0] + ("" if seq[0][1] is None else ":chunk")), n=len(trace))
+
+
+def _refusals(ctx, cfgs, nfixed):
+    """get_localgrid / moments of a multi-domain grid refuse (NotImplementedError) for every way of calling them;
+    the generated methods (Gen/NGrid.lean) answer the same."""
+    sel = [ci for ci, cfg in enumerate(cfgs) if (ci < 12 or ci % 40 == 0) and not cfg.get("_big")]
+    lines, calls = [], []
+    for n, ci in enumerate(sel):
+        cfg = cfgs[ci]
+        doms = None
+        tail, call = _refusal_calls(cfg, doms, n)
+        lines.append("C18.gen-moments " + tail)
+        calls.append((ci, "moments", call))
+        lines.append(f"C18.gen-localgrid {_spec(cfg)} {fvec([0.0, 0.5, 1.0][: 1 + n % 3])} {fvec([1.0 + n])}")
+        calls.append((ci, "get_localgrid", (lambda mg, n=n: mg.get_localgrid(np.array([0.0, 0.5, 1.0][: 1 + n % 3]), 1.0 + n))))
+    for (ci, name, call), a in zip(calls, driver_batch(lines)):
+        mg = _build(cfgs[ci])[0]
+        try:
+            call(mg)
+            impl = "ok"
+        except NotImplementedError:
+            impl = "not-implemented"
+        except Exception as e:
+            impl = f"raised {type(e).__name__}: {e}"
+        ctx.count(["refusal", name, ci], nontrivial=False, tag=f"refusal:{name}:generated")
+        if impl != a.strip():
+            ctx.fail("corr", f"ngrid.{name}:generated", f"MultiDomainGrid.{name}: implementation {impl}, generated method {a}", witness=dict(_pub(cfgs[ci]), op=name))
 
 
 SNIPPET = """import warnings; warnings.filterwarnings('ignore')
@@ -462,6 +758,31 @@ try:
     elif what == 'separable':
         got = float(run(mg, f, cfg, 'vec'))
         want = math.prod(math.fsum(float(d.weights[i]) * float(f.factor(k, d.points[i])) for i in range(d.size)) for k, d in enumerate(doms))
+    elif what == 'history':
+        # one freshly built object, the calls in this order; every answer is the product quadrature
+        got, seq, seen = want, {seq!r}, {{}}
+        for kind, c in seq:
+            v = float(run(mg, f, cfg, kind, c))
+            assert seen.setdefault((kind, c), v) == v or v != v, f'history {{seq}}: the call ({{kind}}, chunk {{c}}) gives {{v!r}}, the same call earlier on this object gave {{seen[(kind, c)]!r}}'
+            assert abs(v - want) <= 1e-10 * scale, f'history {{seq}}: the call ({{kind}}, chunk {{c}}) gives {{v!r}}, nested product quadrature {{want!r}}'
+    elif what == 'translated':
+        # the same grids and integrand translated back by the (exactly representable) shift: identical integrals
+        sh = cfg['par']['shift']
+        cfg0 = dict(cfg, pts=[(np.array(p) - sh).tolist() for p in cfg['pts']], par=dict(cfg['par'], shift=0.0))
+        mg0 = build(cfg0, Grid, MultiDomainGrid)[0]
+        f0 = Integrand(**cfg0['par'])
+        got, want = float(run(mg, f, cfg, 'vec')), float(run(mg0, f0, cfg0, 'vec'))
+        assert float(run(mg, f, cfg, 'nonvec', {chunk} or None)) == float(run(mg0, f0, cfg0, 'nonvec', {chunk} or None)), 'point-by-point route differs on the translated grids'
+        scale = 1e-5 * scale
+    elif what == 'refusal':
+        got = want
+        for name, call in (('moments', lambda: mg.moments(1, np.zeros((1, 3)), np.ones(mg.size))), ('get_localgrid', lambda: mg.get_localgrid(np.zeros(3), 1.0))):
+            try:
+                call()
+                raise AssertionError(f'MultiDomainGrid.{{name}} returned instead of raising NotImplementedError')
+            except NotImplementedError:
+                pass
+        got = float(run(mg, f, cfg, 'vec'))
     elif what == 'size':
         got, want, scale = int(mg.size), len(terms), 0
         assert got == want == len(list(mg.points)) == len(list(mg.weights)), (got, want)
@@ -535,10 +856,10 @@ def _oracle_cfg(ctx: Ctx, cfg, chunks=None):
 
     rec(0, [], [], 1.0)
     want = math.fsum(terms)
-    scale = math.fsum(abs(t) for t in terms) + 1e-300
+    scale = math.fsum(abs(t) for t in terms)
 
-    def snip(what, chunk=0):
-        return SNIPPET.format(integrand_src=INTEGRAND_SRC, build_src=BUILD_SRC, cfg=pub, what=what, chunk=chunk)
+    def snip(what, chunk=0, seq=()):
+        return SNIPPET.format(integrand_src=INTEGRAND_SRC, build_src=BUILD_SRC, cfg=pub, what=what, chunk=chunk, seq=seq)
 
     # size / enumerations
     ipts, iw = list(mg.points), [float(x) for x in mg.weights]
@@ -554,22 +875,28 @@ def _oracle_cfg(ctx: Ctx, cfg, chunks=None):
                 ctx.fail("oracle", "ngrid.weights", f"weight of combination {cb} is {wv!r}, product of the weights {ww!r}", witness=pub, snippet=snip("size"))
                 break
 
+    calls = []                  # the calls of integrate made on `mg` so far: a failure is replayed as this history on a fresh object
+
     def attempt(key, what, chunk, fn, ref):
+        if what != "separable":
+            calls.append(("vec", None) if what == "vec" else ("nonvec", chunk))
+        sn = snip("separable") if what == "separable" else snip("history", seq=list(calls))
         try:
             got = float(fn())
         except Exception as e:
-            ctx.fail("oracle", key, f"{what}: raised {type(e).__name__}: {e} (integrand values handed back as {cfg['par']['ret']}, chunk size as {cfg.get('ctype')})",
-                     witness=dict(pub, chunk=chunk), snippet=snip(what if what != "chunk" else "nonvec", chunk or 0))
+            ctx.fail("oracle", key, f"{what}: raised {type(e).__name__}: {e} (integrand values handed back as {cfg['par']['ret']}, chunk size as {cfg.get('ctype')}; calls on this object so far {calls})",
+                     witness=dict(pub, chunk=chunk, history=list(calls)), snippet=sn)
             return None
         if not close(got, ref, rtol=1e-10, scale=scale):
-            ctx.fail("oracle", key, f"{what}" + (f" with chunk size {chunk}" if chunk is not None else "") + f": integrate gives {got!r}, nested product quadrature {ref!r} (total {len(terms)})",
-                     witness=dict(pub, chunk=chunk, got=got, want=ref), snippet=snip(what if what != "chunk" else "nonvec", chunk or 0))
+            ctx.fail("oracle", key, f"{what}" + (f" with chunk size {chunk}" if chunk is not None else "") + f": integrate gives {got!r}, nested product quadrature {ref!r} (total {len(terms)}; calls on this object so far {calls})",
+                     witness=dict(pub, chunk=chunk, got=got, want=ref, history=list(calls)), snippet=sn)
         return got
 
     v1 = attempt("ngrid.integrate:vectorized", "vec", None, lambda: run(mg, f, cfg, "vec"), want)
     tot = cfg["total"]
     if chunks is None:
         chunks = _chunk_sizes(tot) if tot <= 60 else ctx.rng.sample(_chunk_sizes(tot), 3)
+    chunks = list(chunks)
     for c in chunks:
         if c is not None and c < 1:
             continue
@@ -577,8 +904,57 @@ def _oracle_cfg(ctx: Ctx, cfg, chunks=None):
     # state: the vectorised route again after the point-by-point calls
     v2 = attempt("ngrid.integrate:vectorized", "vec", None, lambda: run(mg, f, cfg, "vec"), want)
     if v1 is not None and v2 is not None and v1 != v2 and not (v1 != v1 and v2 != v2):
-        ctx.fail("oracle", "ngrid.integrate:state", f"the vectorised integral is {v1!r} at first and {v2!r} after other calls on the same object", witness=pub, snippet=snip("vec"))
-    if cfg["par"]["kind"] == "sep" and cfg["par"]["ret"] in EXACT_RET:
+        ctx.fail("oracle", "ngrid.integrate:state", f"the vectorised integral is {v1!r} at first and {v2!r} after other calls on the same object",
+                 witness=dict(pub, history=list(calls)), snippet=snip("history", seq=list(calls)))
+    # classes 10 / 11: a freshly built object whose FIRST call is the point-by-point route with a non-default chunk size,
+    # then the vectorised route, then other chunk sizes, the first one again; size / points / weights and the two refusing
+    # methods in between
+    cs = [c for c in chunks if c is not None and c >= 1] or [1]
+    c1 = ([c for c in cs if 1 < c < tot and tot % c] or [c for c in cs if c < tot] or cs)[-1]       # preferably one that does not divide the total
+    seq = [("nonvec", c1), ("vec", None), ("nonvec", cs[0]), ("nonvec", None), ("nonvec", c1), ("nonvec", cs[-1]), ("vec", None)]
+    mgh = _build(cfg)[0]
+    fh = Integrand(**cfg["par"])
+    done = []
+    for i, (kind, c) in enumerate(seq):
+        try:
+            if i == 2:
+                list(mgh.points), list(mgh.weights), mgh.size
+            if i in (1, 4):
+                try:
+                    mgh.moments(1, np.zeros((1, 3)), np.ones(len(terms))) if i == 1 else mgh.get_localgrid(np.zeros(3), 1.0)
+                    ctx.fail("oracle", "ngrid.refusal", f"{'moments' if i == 1 else 'get_localgrid'} of a multi-domain grid returned instead of raising NotImplementedError",
+                             witness=pub, snippet=snip("refusal"))
+                except NotImplementedError:
+                    pass
+                except Exception as e:
+                    ctx.fail("oracle", "ngrid.refusal", f"{'moments' if i == 1 else 'get_localgrid'} of a multi-domain grid raised {type(e).__name__} ({e}) instead of NotImplementedError",
+                             witness=pub, snippet=snip("refusal"))
+            got = float(run(mgh, fh, cfg, kind, c))
+        except Exception as e:
+            ctx.fail("oracle", "ngrid.integrate:history", f"call {i} ({kind}, chunk {c}) after {done} on one object raised {type(e).__name__}: {e}",
+                     witness=dict(pub, history=seq[: i + 1]), snippet=snip("history", seq=seq[: i + 1]))
+            break
+        done.append((kind, c))
+        if not close(got, want, rtol=1e-10, scale=scale):
+            ctx.fail("oracle", "ngrid.integrate:history", f"on one object, after the calls {done[:-1]}, the call ({kind}, chunk {c}) gives {got!r}, nested product quadrature {want!r}",
+                     witness=dict(pub, history=done, got=got, want=want), snippet=snip("history", seq=done))
+            break
+    # class 8: grids translated by an exactly representable amount give bit-identical integrals (the class hands the points through)
+    if cfg["par"].get("shift"):
+        sh = cfg["par"]["shift"]
+        cfg0 = dict(cfg, pts=[(np.array(p) - sh).tolist() for p in cfg["pts"]], par=dict(cfg["par"], shift=0.0))
+        mg0 = _build(cfg0)[0]
+        f0 = Integrand(**cfg0["par"])
+        for kind, c in (("vec", None), ("nonvec", cs[0])):
+            try:
+                a, b = float(run(mg, f, cfg, kind, c)), float(run(mg0, f0, cfg0, kind, c))
+            except Exception as e:
+                ctx.fail("oracle", "ngrid.integrate:translated", f"{kind}: raised {type(e).__name__}: {e}", witness=dict(pub, chunk=c), snippet=snip("translated", c or 0))
+                continue
+            if a != b and not (a != a and b != b):
+                ctx.fail("oracle", "ngrid.integrate:translated", f"{kind} (chunk {c}): {a!r} on the grids translated by {sh:g}, {b!r} on the untranslated ones (same integrand values)",
+                         witness=dict(pub, chunk=c, got=a, want=b), snippet=snip("translated", c or 0))
+    if cfg["par"]["kind"] == "sep" and cfg["par"]["ret"] in EXACT_RET and cfg["par"].get("zero") is None:
         prod = math.prod(math.fsum(float(d.weights[i]) * float(f.factor(k, d.points[i])) for i in range(d.size)) for k, d in enumerate(doms))
         attempt("ngrid.integrate:separable", "separable", None, lambda: run(mg, f, cfg, "vec"), prod)
 
@@ -592,6 +968,42 @@ def oracle(ctx: Ctx, budget: str):
         cap = 150 if budget == "small" else 700
         cfg = _config(ctx, cap, *fixed[it]) if it < len(fixed) else _config(ctx, cap)
         _oracle_cfg(ctx, cfg)
+    # round 3, present in every run: one-point domains / one object in non-adjacent positions / num_domains = 1 (class 12);
+    # integrands and weights that are exactly zero on whole blocks, values and weights of extreme magnitude, translated
+    # grids (class 8)
+    special = [dict(nd=3, mode="list", sizes=[1, 1, 1]), dict(nd=3, mode="list", sizes=[1, 4, 3]), dict(nd=3, mode="list", sizes=[4, 3, 1]),
+               dict(nd=3, mode="list-aba"), dict(nd=4, mode="list-aba"), dict(nd=1, mode="repeat"), dict(nd=5, mode="repeat", sizes=[1]),
+               dict(nd=2, mode="list", plain=True, zero="all"), dict(nd=3, mode="list", plain=True, zero="lead"), dict(nd=2, mode="repeat", plain=True, zero="lead"),
+               dict(nd=1, mode="list", plain=True, zero="lead", sizes=[6]), dict(nd=3, mode="list", plain=True, zero="mid", zero_w="some"),
+               dict(nd=3, mode="list", plain=True, zero_w="lead"), dict(nd=2, mode="repeat", plain=True, zero_w="lead"),
+               dict(nd=2, mode="list", plain=True, zero_w="all-first"),
+               dict(nd=2, mode="list", plain=True, fscale=1e-300), dict(nd=3, mode="list", plain=True, fscale=1e-50), dict(nd=3, mode="list", plain=True, fscale=1e12),
+               dict(nd=2, mode="repeat", plain=True, fscale=1e200), dict(nd=3, mode="list", plain=True, wexp=[150, 0, -150]),
+               dict(nd=3, mode="list", plain=True, wexp=[-150, 12, 150], fscale=1e100), dict(nd=3, mode="repeat", plain=True, wexp=[60]),
+               dict(nd=2, mode="list", plain=True, shift=20), dict(nd=3, mode="list-aba", plain=True, shift=10), dict(nd=1, mode="list", plain=True, shift=15)]
+    for kw in special * (1 if budget == "small" else 6):
+        _oracle_cfg(ctx, _config(ctx, 150, **kw))
+    # class 7: a total just above the default chunk size 6000 (the default splits into 6000 + 1), called with the default
+    # and with the sizes next to it
+    for sizes in ([[17, 353]] if budget == "small" else [[17, 353], [75, 80], [7, 857], [78, 78]]):
+        _oracle_cfg(ctx, _config(ctx, 10 ** 6, 2, "list", sizes=sizes, plain=True), chunks=[None, 5999, 6001])
+    # a point-by-point integrand that hands back a one-element array / list instead of a number: outside the documented
+    # contract ("return a float"), observed and reported as information
+    cfg = _config(ctx, 60, 2, "list", sizes=[3, 2], plain=True)
+    cfg["par"]["ret"] = "a1"
+    mg, grids, doms = _build(cfg)
+    f = Integrand(**cfg["par"])
+    want = float(mg.integrate(Integrand(**dict(cfg["par"], ret="float64")), non_vectorized=True))
+    obs = {}
+    for c in (1, 2, 6000):
+        try:
+            obs[c] = float(mg.integrate(f, non_vectorized=True, integration_chunk_size=c))
+        except Exception as e:
+            obs[c] = f"{type(e).__name__}"
+    if any(not isinstance(v, float) or not close(v, want, rtol=1e-10) for v in obs.values()):
+        ctx.info("outside the documented contract (integrand 'returns a float'): a point-by-point integrand returning a one-element array of "
+                 f"shape (1,) gives chunk-size dependent values {obs} (chunk size -> integral; scalar-valued integrand: {want!r}): "
+                 "np.array(list(chunk_values)) has shape (c, 1) and broadcasts against the (c,) weights")
     # a vectorised integrand that hands back a Python list, on one domain and on two (own key: the single-domain
     # shortcut passes the list on to Grid.integrate, which accepts NumPy arrays only)
     for nd in (1, 2):
@@ -612,7 +1024,8 @@ def oracle(ctx: Ctx, budget: str):
         elif bad:
             ctx.fail("oracle", "ngrid.integrate:vectorized:list-valued" + (":single-domain" if nd == 1 else ""),
                      f"vectorised integrand returning a Python list, {nd} domain(s): {bad}; the point-by-point route gives "
-                     f"{float(mg.integrate(f, non_vectorized=True))!r}", witness=_pub(cfg), snippet=LIST_SNIPPET.format(nd=nd))
+                     f"{float(mg.integrate(f, non_vectorized=True))!r}", witness=_pub(cfg),
+                     snippet=SNIPPET.format(integrand_src=INTEGRAND_SRC, build_src=BUILD_SRC, cfg=_pub(cfg), what="history", chunk=0, seq=[("vec", None)]))
     # the library's own grid classes as domains
     for it in range(6 if budget == "small" else 60):
         nd = ctx.rng.randint(1, 3)
@@ -650,7 +1063,7 @@ def oracle_at(ctx: Ctx, failure):
     if not (isinstance(w, dict) and {"mode", "nd", "pts", "wts", "par"} <= set(w)):
         return
     cfg = {k: w[k] for k in CFG_KEYS if k in w}
-    cfg["total"] = math.prod(len(x) for x in cfg["wts"]) if cfg["mode"] == "list" else len(cfg["wts"][0]) ** cfg["nd"]
+    cfg["total"] = _total(cfg)
     chunks = None
     if isinstance(w.get("chunk"), int) and w["chunk"] >= 1:
         chunks = sorted({w["chunk"], 1, cfg["total"] + 1})
